@@ -10,6 +10,7 @@ import FxVerif.Proofs.C14InvQ
 import FxVerif.Proofs.C14InvS
 import FxVerif.Proofs.C14InvI
 import FxVerif.Proofs.C14InvG
+import FxVerif.Proofs.C14Gen
 import FxVerif.Proofs.C14InvK
 /-!
 # C14 — account migration moves everything, once, to the address that authorised it
@@ -33,7 +34,8 @@ theorem cfg_from_code :
             wRecFrom := true, wRecTo := true, wDirFrom := true, wDirTo := true, bankAll := true,
             gProposerFrom := true, gProposerTo := true, gDepositFrom := true, gDepositTo := true,
             gVoteDeposit := true, gVoteFrom := true, gVoteTo := true, qEveryEntry := true, qByDelegator := true,
-            toParseVB := "ValidateEthereumAddress+HexToAddress", toParseSrv := "HexToAddress" } := by
+            toParseVB := "ValidateEthereumAddress+HexToAddress", toParseSrv := "HexToAddress",
+            gExportSkip := "ValuePrefixMigrateToFlag", gExportStop := false, gImportSets := true } := by
   decide
 
 /-- the bytes `ValidateBasic` hashes are prefix ++ source ++ target, in this order -/
@@ -1848,5 +1850,176 @@ example : ∃ s', migrate cfg exLater 1 11 true = .ok s' ∧
     get s'.ubds (11, 100) = some [(305, 10, 1)] ∧ get (run cfg s' [.block 300, .block 1]).ubds (11, 100) = none ∧
     balOf (run cfg s' [.block 300, .block 1]).bal 1 0 = 0 :=
   ⟨_, rfl, by decide, by decide, by decide, by decide⟩
+
+/-! ## genesis export / import: the one-shot records survive a restart -/
+
+/-- every operation keeps the pairing of the migration records (only an accepted migration writes them) -/
+theorem recInv_step {s : State} (h : RecInv s) (op : Op) : RecInv (step cfg s op).1 := by
+  have keep : ∀ (o : Option State), (∀ s', o = some s' → recT s' = recT s) → RecInv (ofOpt s o).1 := by
+    intro o ho
+    cases o with
+    | none => exact h
+    | some s' => exact h.of_recT (ho s' rfl)
+  cases op with
+  | send x y d n =>
+    simp only [step]
+    apply keep
+    intro s' hs
+    cases hb : sendUnlocked s.bal (lockedOf s x d) x y d n <;> simp [hb] at hs
+    subst hs; rfl
+  | mint x d n => exact h.of_recT rfl
+  | delegate d v amt rw => exact keep _ (fun s' hs => delegate_recT hs)
+  | undelegate d v amt rw => exact keep _ (fun s' hs => undelegate_recT hs)
+  | redelegate d x y amt r1 r2 => exact keep _ (fun s' hs => redelegate_recT hs)
+  | withdraw d v rw => exact keep _ (fun s' hs => withdraw_recT hs)
+  | setWithdraw d w => exact h.of_recT rfl
+  | submit x dep => exact keep _ (fun s' hs => submit_recT hs)
+  | deposit x id amt => exact keep _ (fun s' hs => deposit_recT hs)
+  | vote x id => exact keep _ (fun s' hs => vote_recT hs)
+  | block dt => simp only [step]; exact h.of_recT (endBlock_recT s dt)
+  | setPeriods dp vp => exact h.of_recT rfl
+  | setUnbond n => exact h.of_recT rfl
+  | migrate f t sg =>
+    simp only [step]
+    cases hm : migrate cfg s f t sg with
+    | error e => exact h
+    | ok s' =>
+      obtain ⟨hne, _, hf, ht, _, _, _, rfl⟩ := migrate_ok_inv hm
+      have hx : recT (stakingExecute cfg (bankExecute cfg s f t) f t) = recT s :=
+        (stakingExecute_recT cfg _ f t).trans rfl
+      have e1 : (stakingExecute cfg (bankExecute cfg s f t) f t).recs = s.recs := congrArg (·.1) hx
+      have e2 : (stakingExecute cfg (bankExecute cfg s f t) f t).dirFrom = s.dirFrom := congrArg (·.2.1) hx
+      have e3 : (stakingExecute cfg (bankExecute cfg s f t) f t).dirTo = s.dirTo := congrArg (·.2.2) hx
+      refine h.set f t hne hf ht (s' := moved s f t) ?_ ?_ ?_
+      · show put (put _ f (true, t)) t (false, f) = _; rw [e1]
+      · show ins _ f = _; rw [e2]
+      · show ins _ t = _; rw [e3]
+
+/-- the pairing holds after every history (migrations included) from a state where it holds -/
+theorem recInv_run {s : State} (h : RecInv s) (ops : List Op) : RecInv (run cfg s ops) := by
+  induction ops generalizing s with
+  | nil => exact h
+  | cons op ops ih => exact ih (recInv_step h op)
+
+theorem recInv_base (s : State) (h1 : s.recs = []) (h2 : s.dirFrom = []) (h3 : s.dirTo = []) : RecInv s := by
+  refine ⟨?_, ?_, ?_⟩
+  · intro a b fl hab; rw [h1, get_nil] at hab; cases hab
+  · intro a; rw [h2, h1]; simp [get_nil]
+  · intro a; rw [h3, h1]; simp [get_nil]
+
+/-- `ExportGenesis` as read from the code exports exactly the records stored under their source -/
+theorem export_spec (s : State) (r : Addr × Addr) :
+    r ∈ exportGenesis cfg s ↔ get s.recs r.1 = some (true, r.2) := by
+  unfold exportGenesis
+  rw [cfg_from_code]
+  simp only [beq_self_eq_true, ↓reduceIte, Bool.false_eq_true, List.mem_map, List.mem_filter, visible, beq_iff_eq]
+  constructor
+  · rintro ⟨p, ⟨⟨_, hg⟩, hfl⟩, rfl⟩
+    obtain ⟨a, fl, b⟩ := p
+    simp only at hfl hg ⊢
+    subst hfl; exact hg
+  · intro hg
+    exact ⟨(r.1, true, r.2), ⟨⟨get_some_mem _ _ _ hg, hg⟩, rfl⟩, rfl⟩
+
+/-- `InitGenesis` as read from the code: the fold of `SetMigrateRecord` over the exported records -/
+theorem import_fields (s : State) (E : List (Addr × Addr)) :
+    (initGenesis cfg s E).recs = impRecs [] E ∧
+    (initGenesis cfg s E).dirFrom = (E.map (·.1)).foldl ins [] ∧
+    (initGenesis cfg s E).dirTo = (E.map (·.2)).foldl ins [] := by
+  have hi : cfg.gImportSets = true := by rw [cfg_from_code]
+  unfold initGenesis
+  simp only [hi, ↓reduceIte]
+  have gen : ∀ s0 : State,
+      (E.foldl (fun s r => setRecord cfg s r.1 r.2) s0).recs = impRecs s0.recs E ∧
+      (E.foldl (fun s r => setRecord cfg s r.1 r.2) s0).dirFrom = (E.map (·.1)).foldl ins s0.dirFrom ∧
+      (E.foldl (fun s r => setRecord cfg s r.1 r.2) s0).dirTo = (E.map (·.2)).foldl ins s0.dirTo := by
+    induction E with
+    | nil => intro s0; exact ⟨rfl, rfl, rfl⟩
+    | cons r E ih =>
+      intro s0
+      simp only [List.foldl_cons, List.map_cons, impRecs]
+      have := ih (setRecord cfg s0 r.1 r.2)
+      rw [setRecord_cfg] at this ⊢
+      exact this
+  exact gen _
+
+/-- **genesis_round_trip**: in every state whose records are paired (every reachable state: `recInv_run`), a chain restarted
+from its own exported genesis — `ExportGenesis` then `InitGenesis` as read from the code — finds, for every address, the same
+record and the same direction flags as before; nothing else is touched and the pairing holds again -/
+theorem genesis_round_trip {s : State} (h : RecInv s) (a : Addr) :
+    get (genesisRoundTrip cfg s).recs a = get s.recs a ∧
+    (a ∈ (genesisRoundTrip cfg s).dirFrom ↔ a ∈ s.dirFrom) ∧
+    (a ∈ (genesisRoundTrip cfg s).dirTo ↔ a ∈ s.dirTo) := by
+  obtain ⟨e1, e2, e3⟩ := import_fields s (exportGenesis cfg s)
+  unfold genesisRoundTrip
+  rw [e1, e2, e3]
+  refine ⟨import_export_get h _ (export_spec s) a, ?_, ?_⟩
+  · rw [mem_foldl_ins, h.dirF]
+    simp only [List.mem_map, List.not_mem_nil, or_false]
+    constructor
+    · rintro ⟨r, hr, rfl⟩; exact ⟨r.2, (export_spec s r).mp hr⟩
+    · rintro ⟨b, hb⟩; exact ⟨(a, b), (export_spec s (a, b)).mpr hb, rfl⟩
+  · rw [mem_foldl_ins, h.dirT]
+    simp only [List.mem_map, List.not_mem_nil, or_false]
+    constructor
+    · rintro ⟨r, hr, rfl⟩
+      have := h.pair _ _ _ ((export_spec s r).mp hr)
+      exact ⟨r.1, this⟩
+    · rintro ⟨b, hb⟩
+      have := h.pair _ _ _ hb
+      exact ⟨(b, a), (export_spec s (b, a)).mpr this, rfl⟩
+
+theorem genesis_round_trip_inv {s : State} (h : RecInv s) : RecInv (genesisRoundTrip cfg s) := by
+  refine ⟨?_, ?_, ?_⟩
+  · intro a b fl hab
+    rw [(genesis_round_trip h a).1] at hab
+    rw [(genesis_round_trip h b).1]
+    exact h.pair a b fl hab
+  · intro a; rw [(genesis_round_trip h a).2.1, (genesis_round_trip h a).1]; exact h.dirF a
+  · intro a; rw [(genesis_round_trip h a).2.2, (genesis_round_trip h a).1]; exact h.dirT a
+
+/-- **never_reused_across_restart**: once a migration of `frm` to `to` was accepted, then after any later history, a restart
+of the chain from its exported genesis, and any further history, every migration whose source or target is `frm` or `to`
+is still rejected (`s0`: any state with paired records, e.g. the empty module store — `recInv_base`) -/
+theorem never_reused_across_restart {s0 : State} (h0 : RecInv s0) (before : List Op) {s' : State} {frm to : Addr}
+    {sigOk : Bool} (h : migrate cfg (run cfg s0 before) frm to sigOk = .ok s')
+    (later further : List Op) (a b : Addr) (sg : Bool) (hab : a = frm ∨ a = to ∨ b = frm ∨ b = to) :
+    ∀ s'', migrate cfg (run cfg (genesisRoundTrip cfg (run cfg s' later)) further) a b sg ≠ .ok s'' := by
+  intro s'' h2
+  have hs' : RecInv s' := by
+    have := recInv_step (recInv_run h0 before) (.migrate frm to sigOk)
+    simp only [step, h] at this
+    exact this
+  have hl := recInv_run hs' later
+  obtain ⟨hne, _, _, _, _, _, _, rfl⟩ := migrate_ok_inv h
+  have hf : (get (moved (run cfg s0 before) frm to).recs frm).isSome = true := by
+    show (get (put (put _ frm (true, to)) to (false, frm)) frm).isSome = true
+    rw [get_put_ne _ _ _ _ hne, get_put_eq]; rfl
+  have ht : (get (moved (run cfg s0 before) frm to).recs to).isSome = true := by
+    show (get (put (put _ frm (true, to)) to (false, frm)) to).isSome = true
+    rw [get_put_eq]; rfl
+  have hf' := records_kept_run _ later frm hf
+  have ht' := records_kept_run _ later to ht
+  rw [← (genesis_round_trip hl frm).1] at hf'
+  rw [← (genesis_round_trip hl to).1] at ht'
+  have hf'' := records_kept_run _ further frm hf'
+  have ht'' := records_kept_run _ further to ht'
+  obtain ⟨_, _, ha, hb, _⟩ := migrate_ok_inv h2
+  rcases hab with rfl | rfl | rfl | rfl
+  · rw [ha] at hf''; cases hf''
+  · rw [ha] at ht''; cases ht''
+  · rw [hb] at hf''; cases hf''
+  · rw [hb] at ht''; cases ht''
+
+/-- non-vacuity: the empty module store is paired; the migration of 1 to 11 is accepted in `exState`, and after a restart
+from the exported genesis both records and both direction flags are there again and the same pair is refused -/
+example : RecInv exBase := recInv_base exBase rfl rfl rfl
+example : ∃ s', migrate cfg exState 1 11 true = .ok s' ∧
+    exportGenesis cfg s' = [(1, 11)] ∧
+    get (genesisRoundTrip cfg s').recs 1 = some (true, 11) ∧ get (genesisRoundTrip cfg s').recs 11 = some (false, 1) ∧
+    (genesisRoundTrip cfg s').dirFrom = [1] ∧ (genesisRoundTrip cfg s').dirTo = [11] ∧
+    (match migrate cfg (genesisRoundTrip cfg s') 1 12 true with | .error .migrated => true | _ => false) = true ∧
+    (match migrate cfg (genesisRoundTrip cfg s') 2 11 true with | .error .migrated => true | _ => false) = true :=
+  ⟨_, rfl, by decide, by decide, by decide, by decide, by decide, by decide, by decide⟩
 
 end FxVerif.Props.C14
